@@ -837,6 +837,16 @@ class _AdaptiveStepRK(_RungeKuttaBase):
         if not hasattr(self, "_err_exp") or self._err_exp == 0:
             self._err_exp = 1.0 / (self._p)
 
+    def validate_inputs(self, system: _DynamicalSystemProtocol, y0: np.ndarray, t_vals: np.ndarray) -> None:
+        super().validate_inputs(system, y0, t_vals)
+        # The adaptive drivers only step forward (``while t < tf``); a decreasing
+        # grid would otherwise return without integrating.
+        if t_vals[-1] < t_vals[0]:
+            raise ValueError(
+                "Adaptive integrators require an increasing time grid; "
+                "wrap the system in a backward _DirectedSystem (forward=-1) to integrate backward in time"
+            )
+
 
 @numba.njit(cache=False, fastmath=FASTMATH)
 def rk45_step_jit_kernel(f, t, y, h, A, B_HIGH, C, E):
